@@ -21,6 +21,7 @@ inductive Err where
                    -- outside the model (Lean's `Float32.toBits` canonicalises NaN); monitored, not guessed
   | unmodelled     -- a table entry the model has no semantics for (new function in the source)
   | outOfFuel      -- model artefact; never produced with the fuel the entry points supply
+  | depthLimit     -- SvgdxError::DepthLimitExceeded: an expression nested deeper than `MAX_EXPR_DEPTH`
 deriving DecidableEq, Repr
 
 def Err.name : Err → String
@@ -32,6 +33,7 @@ def Err.name : Err → String
   | .nanOrder => "nanOrder"
   | .unmodelled => "unmodelled"
   | .outOfFuel => "outOfFuel"
+  | .depthLimit => "DepthLimitExceeded"
 
 /--
   The number operations of the evaluator (`f32` in the implementation) and the random source.
